@@ -7,21 +7,22 @@
 (*   Reparses        is accepted by the parser                             *)
 (*   SameTree        parses to the same syntax tree (positions aside)      *)
 (*   Fixpoint        prints to the same text again                         *)
-(*   LayoutOnly      has the same non-blank characters as the reference    *)
-(*                   rendering (layout may only change whitespace)         *)
+(* (The records also say whether the non-blank characters equal those of  *)
+(* the widest rendering; C16 does not require that - a formatter may add a *)
+(* trailing comma when a list breaks - so it is recorded, not judged.)     *)
 (* One behaviour per program; the first failing record is reported.        *)
 (***************************************************************************)
 EXTENDS Integers, Sequences, TLC, Json, IOUtils
 Runs == JsonDeserialize(IOEnv.SCCV_CASES)   \* seq of [name, parse, records: seq of [w, i, reparse, tree, fix, nonblank]]
 VARIABLE st
-Bad(r) == {k \in 1..Len(r.records) : ~(r.records[k].reparse /\ r.records[k].tree /\ r.records[k].fix /\ r.records[k].nonblank)}
+Bad(r) == {k \in 1..Len(r.records) : ~(r.records[k].reparse /\ r.records[k].tree /\ r.records[k].fix)}
 Why(r) ==
   IF r.parse # "ok" THEN <<"unparsable", "the parser rejects a program derived from the grammar specification: " \o r.parse>>
   ELSE IF Bad(r) = {} THEN <<"accepted", "">>
   ELSE LET k == CHOOSE k \in Bad(r) : \A j \in Bad(r) : k <= j
            x == r.records[k]
        IN <<"rejected", (IF ~x.reparse THEN "printed text does not parse" ELSE IF ~x.tree THEN "printed text parses to a different tree"
-                         ELSE IF ~x.fix THEN "printing is not a fixpoint" ELSE "layout changed non-blank characters")
+                         ELSE "printing is not a fixpoint")
                         \o " at width " \o ToString(x.w) \o ", indent " \o ToString(x.i)>>
 Init == st \in {[r |-> r, status |-> "run"] : r \in 1..Len(Runs)}
 Next == /\ st.status = "run"
